@@ -282,7 +282,9 @@ def oracle(c, obs):
         if obs['mem_eq_disk']: return 'full_ds differs from the file: ' + obs['mem_eq_disk']
     if c['farmer'] == 'sampler':
         if obs['store'] != obs['store_direct']: return 'on-disk table after the reap differs from a direct sample of the same settings'
-        if obs['mem'] != obs['store']: return 'full_df differs from the file'
+        # csv has no types: a column holding both text and numbers reads back as text (as in C15, cells are compared as text there)
+        nz = (lambda rows: [{k: (v if isinstance(v, str) else str(v)) for k, v in r.items()} for r in rows]) if c.get('engine') == 'csv' else (lambda rows: rows)
+        if nz(obs['mem']) != nz(obs['store']): return 'full_df differs from the file'
     if obs['dir_left']: return 'the crop directory was not cleaned up after a complete reap'
     return None
 
